@@ -574,8 +574,8 @@ Proof.
   pose proof (proj1 (forallb2_spec _ _) H2) as H2'. pose proof (proj1 (forallb2_spec _ _) H3) as H3'. pose proof (proj1 (forallb2_spec _ _) H5) as H5'.
   clear H2 H3 H5. rename H2' into H2, H3' into H3, H5' into H5. constructor.
   - intros x Hx. apply N.ltb_lt, H1, seqN_In, Hx.
-  - intros x y Hx Hy E. apply seqN_In in Hx, Hy. specialize (H2 x y Hx Hy). cbv beta in H2. apply nor_eq in H2; [apply N.eqb_eq; auto|]. apply N.eqb_eq; auto.
-  - intros p p' Hp Hp' E. specialize (H3 p p' Hp Hp'). cbv beta in H3. apply nor_eq in H3; [apply N.eqb_eq; auto|]. apply N.eqb_eq; auto.
+  - intros x y Hx Hy E. apply seqN_In in Hx, Hy. specialize (H2 x y Hx Hy). cbv beta in H2. apply N.eqb_eq, (proj1 (nor_eq _ _) H2), N.eqb_eq, E.
+  - intros p p' Hp Hp' E. specialize (H3 p p' Hp Hp'). cbv beta in H3. apply N.eqb_eq, (proj1 (nor_eq _ _) H3), N.eqb_eq, E.
   - intros p Hp. apply N.ltb_lt, H4, Hp.
   - intros p p' Hp Hp' NU NU' E. specialize (H5 p p' Hp Hp'). cbv beta in H5. rewrite !orb_true_iff in H5.
     destruct H5 as [[[U|U]|U]|U].
@@ -603,10 +603,10 @@ Proof.
   pose proof (proj1 (forallb2_spec _ _) H2) as H2'. pose proof (proj1 (forallb2_spec _ _) H3) as H3'. pose proof (proj1 (forallb2_spec _ _) H5) as H5'.
   clear H2 H3 H5. rename H2' into H2, H3' into H3, H5' into H5. constructor.
   - intros x Hx. apply N.ltb_lt, H1, seqN_In, Hx.
-  - intros x y Hx Hy E. apply seqN_In in Hx, Hy. specialize (H2 x y Hx Hy). cbv beta in H2. apply nor_eq in H2; [apply N.eqb_eq; auto|]. apply N.eqb_eq; auto.
-  - intros p p' Hp Hp' E. specialize (H3 p p' Hp Hp'). cbv beta in H3. apply nor_eq in H3; [apply N.eqb_eq; auto|]. apply N.eqb_eq; auto.
+  - intros x y Hx Hy E. apply seqN_In in Hx, Hy. specialize (H2 x y Hx Hy). cbv beta in H2. apply N.eqb_eq, (proj1 (nor_eq _ _) H2), N.eqb_eq, E.
+  - intros p p' Hp Hp' E. specialize (H3 p p' Hp Hp'). cbv beta in H3. apply N.eqb_eq, (proj1 (nor_eq _ _) H3), N.eqb_eq, E.
   - intros p Hp. apply N.ltb_lt, H4, Hp.
-  - intros e e' He He' E. specialize (H5 e e' He He'). cbv beta in H5. apply nor_eq in H5; [apply env_eqb_eq; auto|]. apply N.eqb_eq; auto.
+  - intros e e' He He' E. specialize (H5 e e' He He'). cbv beta in H5. apply env_eqb_eq, (proj1 (nor_eq _ _) H5), N.eqb_eq, E.
   - intros e He. apply N.ltb_lt, H6, He.
 Qed.
 
